@@ -2,6 +2,7 @@ import Driver.Server
 import Driver.Misc
 import Driver.Life
 import Driver.Net
+import Driver.Tls
 /-
   Line-protocol driver: one case per input line, one output line `<model> ## <spec>` per case.
 -/
@@ -18,6 +19,7 @@ def runCase (line : String) : String :=
   | some "fltm" => let (m, s) := runFltm tok; s!"{m} ## {s}"
   | some "life" => let (m, s) := runLife tok; s!"{m} ## {s}"
   | some "net" => let (m, s) := runNet tok; s!"{m} ## {s}"
+  | some "tls" => let (m, s) := runTls tok; s!"{m} ## {s}"
   | some "rdr" => let (m, s) := runRdr tok; s!"{m} ## {s}"
   | some "srv" => let (m, s) := runSrv tok; s!"{m} ## {s}"
   | some other => s!"unknown-suite {other} ## unknown-suite {other}"
